@@ -81,7 +81,8 @@ pub fn run(args: &[String]) {
         let digest = tr.digest().to_bytes_be();
         // find an accepting nonce half of the time
         let mut nonce = rng.next();
-        if c % 4 < 2 { let mut k = 0u64; while lz(&h2(&digest, n, k)) < n as u32 { k += 1; } nonce = k; }
+        // accepting nonces are searched from 0 or from a random 64-bit start (the whole nonce is absorbed, not its low word)
+        if c % 4 < 2 { let mut k = if c % 8 < 4 { 0u64 } else { rng.next() | (1u64 << 40) }; while lz(&h2(&digest, n, k)) < n as u32 { k = k.wrapping_add(1); } nonce = k; }
         let _ = verif::take();
         t.line(&json!({"ev":"reset","case":format!("commit{c}")}));
         t.line(&json!({"ev":"commit.begin","digest":hex(tr.digest()),"n_bits":n,"nonce":format!("{:#x}", nonce)}));
